@@ -282,6 +282,7 @@ impl GraphEngine {
             created_nodes: Vec::new(),
             pending_label_additions: Vec::new(),
             pending_label_removals: Vec::new(),
+            pending_label_order: Vec::new(),
             created_external_ids: std::collections::HashSet::new(),
             max_created_external_id: 0,
             memtable: MemTable::default(),
@@ -892,6 +893,9 @@ pub struct WriteTxn<'a> {
     created_nodes: Vec<(ExternalId, LabelId, InternalNodeId)>,
     pending_label_additions: Vec<(InternalNodeId, LabelId)>,
     pending_label_removals: Vec<(InternalNodeId, LabelId)>,
+    /// How the two lists above interleave (`true`: the next addition): label operations
+    /// take effect in the order they were issued, so the last one on a label wins.
+    pending_label_order: Vec<bool>,
     created_external_ids: std::collections::HashSet<ExternalId>,
     /// Largest external id created in this transaction (0 if none).
     max_created_external_id: ExternalId,
@@ -908,6 +912,24 @@ pub struct WriteTxn<'a> {
     mark: StatementMark,
     /// Vectors take effect at commit: the index writes its own pages and has no undo.
     pending_vectors: Vec<(InternalNodeId, Vec<f32>)>,
+}
+
+/// Label additions and removals in the order they were issued (`true`: addition).
+fn ordered_label_ops<'v>(
+    additions: &'v [(InternalNodeId, LabelId)],
+    removals: &'v [(InternalNodeId, LabelId)],
+    order: &'v [bool],
+) -> impl Iterator<Item = (InternalNodeId, LabelId, bool)> + 'v {
+    let mut additions = additions.iter();
+    let mut removals = removals.iter();
+    order.iter().filter_map(move |added| {
+        let next = if *added {
+            additions.next()
+        } else {
+            removals.next()
+        };
+        next.map(|(node, label_id)| (*node, *label_id, *added))
+    })
 }
 
 /// Sizes of a transaction's node bookkeeping at a statement boundary.
@@ -966,13 +988,23 @@ impl<'a> WriteTxn<'a> {
         self.create_node(external_id, label_id)
     }
 
+    fn label_ops(&self) -> impl Iterator<Item = (InternalNodeId, LabelId, bool)> + '_ {
+        ordered_label_ops(
+            &self.pending_label_additions,
+            &self.pending_label_removals,
+            &self.pending_label_order,
+        )
+    }
+
     pub fn add_node_label(&mut self, node: InternalNodeId, label_id: LabelId) -> Result<()> {
         self.pending_label_additions.push((node, label_id));
+        self.pending_label_order.push(true);
         Ok(())
     }
 
     pub fn remove_node_label(&mut self, node: InternalNodeId, label_id: LabelId) -> Result<()> {
         self.pending_label_removals.push((node, label_id));
+        self.pending_label_order.push(false);
         Ok(())
     }
 
@@ -1046,16 +1078,11 @@ impl<'a> WriteTxn<'a> {
             }
         }
 
-        for (node_id, label_id) in &self.pending_label_additions {
-            labels_by_node
-                .entry(*node_id)
-                .or_default()
-                .insert(*label_id);
-        }
-
-        for (node_id, label_id) in &self.pending_label_removals {
-            if let Some(labels) = labels_by_node.get_mut(node_id) {
-                labels.remove(label_id);
+        for (node_id, label_id, added) in self.label_ops() {
+            if added {
+                labels_by_node.entry(node_id).or_default().insert(label_id);
+            } else if let Some(labels) = labels_by_node.get_mut(&node_id) {
+                labels.remove(&label_id);
             }
         }
 
@@ -1132,21 +1159,20 @@ impl<'a> WriteTxn<'a> {
         for (_, label_id, _) in &self.created_nodes[done.created_nodes..mark.created_nodes] {
             table.push(vec![*label_id]);
         }
-        for (node, label_id) in
-            &self.pending_label_additions[done.label_additions..mark.label_additions]
-        {
-            if let Some(node_labels) = table.get_mut(*node as usize)
-                && !node_labels.contains(label_id)
-            {
-                node_labels.push(*label_id);
+        for (node, label_id, added) in ordered_label_ops(
+            &self.pending_label_additions[done.label_additions..mark.label_additions],
+            &self.pending_label_removals[done.label_removals..mark.label_removals],
+            &self.pending_label_order[done.label_additions + done.label_removals
+                ..mark.label_additions + mark.label_removals],
+        ) {
+            let Some(node_labels) = table.get_mut(node as usize) else {
+                continue;
+            };
+            if !added {
+                node_labels.retain(|l| *l != label_id);
+            } else if !node_labels.contains(&label_id) {
+                node_labels.push(label_id);
                 node_labels.sort_unstable();
-            }
-        }
-        for (node, label_id) in
-            &self.pending_label_removals[done.label_removals..mark.label_removals]
-        {
-            if let Some(node_labels) = table.get_mut(*node as usize) {
-                node_labels.retain(|l| l != label_id);
             }
         }
         *done = mark;
@@ -1169,6 +1195,8 @@ impl<'a> WriteTxn<'a> {
             .truncate(self.mark.label_additions);
         self.pending_label_removals
             .truncate(self.mark.label_removals);
+        self.pending_label_order
+            .truncate(self.mark.label_additions + self.mark.label_removals);
         self.max_created_external_id = self.mark.max_created_external_id;
     }
 
@@ -1192,6 +1220,8 @@ impl<'a> WriteTxn<'a> {
         let removed_node_props = self.memtable.removed_node_properties_for_wal();
         let removed_edge_props = self.memtable.removed_edge_properties_for_wal();
 
+        let label_ops: Vec<(InternalNodeId, LabelId, bool)> = self.label_ops().collect();
+
         let run = self.memtable.freeze_into_run(self.txid);
 
         // 1) Append WAL and fsync (durability Full by default).
@@ -1209,16 +1239,11 @@ impl<'a> WriteTxn<'a> {
                     internal_id: *internal_id,
                 })?;
             }
-            for (node, label_id) in &self.pending_label_additions {
-                wal.append(&WalRecord::AddNodeLabel {
-                    node: *node,
-                    label_id: *label_id,
-                })?;
-            }
-            for (node, label_id) in &self.pending_label_removals {
-                wal.append(&WalRecord::RemoveNodeLabel {
-                    node: *node,
-                    label_id: *label_id,
+            for &(node, label_id, added) in &label_ops {
+                wal.append(&if added {
+                    WalRecord::AddNodeLabel { node, label_id }
+                } else {
+                    WalRecord::RemoveNodeLabel { node, label_id }
                 })?;
             }
 
@@ -1337,14 +1362,14 @@ impl<'a> WriteTxn<'a> {
                             new_labels.insert(*label_id);
                         }
                     }
-                    for (iid, label_id) in &self.pending_label_additions {
-                        if *iid == node {
-                            new_labels.insert(*label_id);
+                    for &(iid, label_id, added) in &label_ops {
+                        if iid != node {
+                            continue;
                         }
-                    }
-                    for (iid, label_id) in &self.pending_label_removals {
-                        if *iid == node {
-                            new_labels.remove(label_id);
+                        if added {
+                            new_labels.insert(label_id);
+                        } else {
+                            new_labels.remove(&label_id);
                         }
                     }
                     if tombstoned.contains(&node) {
@@ -1506,11 +1531,12 @@ impl<'a> WriteTxn<'a> {
             for (external_id, label_id, internal_id) in self.created_nodes {
                 idmap.apply_create_node(&mut pager, external_id, label_id, internal_id)?;
             }
-            for (node, label_id) in self.pending_label_additions {
-                idmap.apply_add_label(&mut pager, node, label_id)?;
-            }
-            for (node, label_id) in self.pending_label_removals {
-                idmap.apply_remove_label(&mut pager, node, label_id)?;
+            for (node, label_id, added) in label_ops {
+                if added {
+                    idmap.apply_add_label(&mut pager, node, label_id)?;
+                } else {
+                    idmap.apply_remove_label(&mut pager, node, label_id)?;
+                }
             }
         }
 
